@@ -14,6 +14,8 @@ class Shadow:
         self.chan_complete_sids = set()
         self.pending_frags = []      # remaining fragments (stimuli) of frames the peer has started to send
         self.big = False        # the endpoint fragments: some payloads handed to it span several fragments
+        self.early_cancel = set()    # objects cancelled in the group that created them
+        self.early_credit = {}
 
     def data(self, rng, n):
         """payload tags for a local send: occasionally larger than one fragment when the endpoint fragments"""
@@ -48,6 +50,14 @@ def choose_group(rng, H, sh, profile, pos):
             if i['kind'] in ('stReq', 'chReq') and i['subscribed'] and not i['peer_term'] and not i['we_cancel']:
                 cands.append([{'op': 'recv', 'frame': {'ty': 'PAYLOAD', 'sid': i['sid'], 'data': [], 'complete': True}, 'beh': 'k'}, {'op': 'SCN', 'oid': oid}])
                 cands.append([{'op': 'SCN', 'oid': oid}, {'op': 'recv', 'frame': {'ty': 'PAYLOAD', 'sid': i['sid'], 'data': sh.fresh(1), 'complete': False}, 'beh': 'k'}])
+        if sh.setup_done:
+            # a request and, inside the same loop iteration (its frame is still in the send queue), a cancellation / more credit for it
+            nxt = len(H.objs)
+            n0 = rng.choice([1, 2, 3])
+            cands.append([{'op': 'RS', 'data': sh.data(rng, 1), 'n': n0, 'sub': True}, {'op': 'SCN', 'oid': nxt}])
+            cands.append([{'op': 'RC', 'data': sh.data(rng, 1), 'n': n0, 'pub': rng.random() < 0.6, 'sub': True}, {'op': 'SCN', 'oid': nxt}])
+            cands.append([{'op': 'RR', 'data': sh.data(rng, 1)}, {'op': 'FCN', 'oid': nxt}])
+            cands.append([{'op': 'RS', 'data': sh.data(rng, 1), 'n': n0, 'sub': True}, {'op': 'SRQ', 'oid': nxt, 'n': rng.choice([1, 2])}])
         if cands:
             group = rng.choice(cands)
             for s in group:
@@ -103,6 +113,9 @@ def _sync(H, sh):
                                 credit_out=0, pub_term=False, peer_cancel=False, fut_done=False, credit_in=0,
                                 has_pub=bool(o.get('pub')), has_sub=bool(o.get('sub')), peer_opened=o['kind'] in ('rrResp', 'stResp', 'chResp'))
             i = sh.info[oid]
+            if oid in sh.early_cancel:
+                i['we_cancel'] = True
+            i['credit_out'] += sh.early_credit.pop(oid, 0)
             if o['kind'] == 'rrResp':
                 i['fut_done'] = o['fut'].done()
             if o['kind'] in ('stResp', 'chResp'):
@@ -286,6 +299,11 @@ def note(sh, H, s):
     if op in ('RS', 'RC'):
         sh.last_new = s
     if i is None:
+        # an object created earlier in the same group: remembered until the shadow meets it
+        if op in ('SCN', 'FCN'):
+            sh.early_cancel.add(oid)
+        elif op == 'SRQ':
+            sh.early_credit[oid] = sh.early_credit.get(oid, 0) + s['n']
         return
     if op == 'SRQ':
         i['credit_out'] += s['n']
